@@ -84,6 +84,12 @@ impl Gen {
             1 => 20, // pushes against the 255 limit
             _ => self.rng.range(1, 5) as usize,
         };
+        // now and then as many labels as a name can hold: 127 one-octet labels are 255 octets, and a few short of that
+        if want == 20 && self.rng.chance(1, 5) {
+            let n = *self.rng.pick(&[64usize, 100, 126, 127, 127]);
+            let pool = self.share.max(2) as u64;
+            return (0..n).map(|_| vec![b'a' + self.rng.below(pool.min(26)) as u8]).collect();
+        }
         let mut out: Vec<Vec<u8>> = Vec::new();
         let mut size = 1usize;
         for _ in 0..want {
